@@ -630,7 +630,7 @@ func writeEvidence(prop, tier string, seed uint64, b *build, bt *batch, tc tierC
 		"run_status":              status,
 		"run_configs":             configs,
 		"fault_counts":            faults,
-		"faults_without_target":   []string{"crash/restart", "disk errors / torn or lost writes", "message loss", "message duplication", "partition", "clock skew / jumps", "allocation failure"},
+		"faults_without_target":   []string{"process crash/restart (no durable state; its library-level counterpart, an operation aborted midway, is injected for C05 and C18)", "disk errors / torn or lost writes", "message loss", "message duplication", "partition", "clock skew / jumps", "allocation failure"},
 		"probes":                  probes,
 		"race_build":              true,
 		"workers":                 tc.workers,
@@ -691,6 +691,9 @@ func assumptionsFor(prop string) []string {
 	}
 	if prop == "C05" {
 		a = append(a, "the reference for 'same graph' is the implementation itself run serially on a fresh twin (decides purity, not correctness of the algorithm)")
+	}
+	if prop == "C05" || prop == "C18" {
+		a = append(a, "aborted-operation faults (cancellation, failing client calls / RPCs): what the aborted operation itself returns is not judged, nor is a clean operation overlapping in time with one whose calls were failing; every other operation, and every successful call, is judged as in a fault-free run")
 	}
 	if prop == "C18" {
 		a = append(a, "the reference LocalClient universe is produced by an independent model of the documented bundle/alias mapping written from the statement of C18")
